@@ -131,6 +131,46 @@ impl OptSpec {
         true
     }
 
+    /// How the options reach the library for this (text, options) pair: by
+    /// value or by reference (`From<&Options>`). Every entry point accepts
+    /// both; the monitors alternate deterministically so that replays agree.
+    pub fn by_ref(&self, text: &str) -> bool {
+        (crate::rng::fnv(text.as_bytes()) ^ (self.width as u64).wrapping_mul(0x9E37) ^ self.ii.len() as u64).count_ones() & 1 == 1
+    }
+
+    pub fn fill(&self, text: &str) -> String {
+        let b = self.build();
+        if self.by_ref(text) {
+            textwrap::fill(text, &b)
+        } else {
+            textwrap::fill(text, b)
+        }
+    }
+
+    pub fn refill(&self, text: &str) -> String {
+        let b = self.build();
+        if self.by_ref(text) {
+            textwrap::refill(text, &b)
+        } else {
+            textwrap::refill(text, b)
+        }
+    }
+
+    pub fn wrap_owned(&self, text: &str) -> Vec<String> {
+        let b = self.build();
+        let v = if self.by_ref(text) { textwrap::wrap(text, &b) } else { textwrap::wrap(text, self.build()) };
+        v.into_iter().map(|c| c.into_owned()).collect()
+    }
+
+    pub fn wrap_columns(&self, text: &str, cols: usize, l: &str, m: &str, r: &str) -> Vec<String> {
+        let b = self.build();
+        if self.by_ref(text) {
+            textwrap::wrap_columns(text, cols, &b, l, m, r)
+        } else {
+            textwrap::wrap_columns(text, cols, b, l, m, r)
+        }
+    }
+
     pub fn build(&self) -> Options<'_> {
         let mut o = Options::new(self.width)
             .initial_indent(&self.ii)
